@@ -149,6 +149,14 @@ class PositionIndependentGrowDecider(MaxDepthDecider):
         super().__init__(random, grammar, max_depth)
         self.expanding = True
 
+    def __copy__(self):
+        # A copy starts a tree of its own (the genotype-to-phenotype mappings copy their decider): whether the tree the
+        # original was last building had reached the maximum depth is not carried over.
+        clone = type(self).__new__(type(self))
+        clone.__dict__.update(self.__dict__)
+        clone.expanding = True
+        return clone
+
     def choose_production_alternatives(self, ty: type, alternatives: list[type], ctx: LocalSynthesisContext) -> type:
         assert len(alternatives) > 0, "No alternatives presented"
 
